@@ -16,14 +16,31 @@ import vf, walk, tmplgen
 
 def write_cases(path, cases):
     with open(path, "w") as f:
-        for doc, nodes, text in cases:
+        for case in cases:
+            doc, nodes, text = case[:3]
             vj = tmplgen.to_json(doc)
             f.write(",".join(str(ord(ch)) for ch in text) + "\t" + ",".join(str(ord(ch)) for ch in vj) + "\t" +
-                    json.dumps({"ast": nodes, "doc": doc}, separators=(",", ":")) + "\n")
+                    json.dumps({"ast": nodes, "doc": doc, "fam": case[3] if len(case) > 3 else "random"}, separators=(",", ":")) + "\n")
 
 
 def sig(e):
-    return "template %r -> out=%r" % ("".join(chr(u) for u in e["t"])[:300], "".join(chr(u) for u in e["out"])[:200])
+    fam = "SORTKIND " if e["meta"].get("fam") == "sortkind" else ""
+    return "template %s%r -> out=%r" % (fam, "".join(chr(u) for u in e["t"])[:300], "".join(chr(u) for u in e["out"])[:200])
+
+
+def sortkind_cases():
+    """a loop sorted over numbers of different kinds (natural, negative integer, real): the documented order is the numeric one"""
+    U = tmplgen.U
+    out = []
+    for nums in ([48, -32, 8], [16, 40], [-16, 80], [8, 16], [160, -8, 48, 4], [-32, -8]):
+        for srt, word in ((1, "ascend"), (2, "descend")):
+            doc = {"t": "O", "m": [{"k": U("mix"), "v": {"t": "A", "e": [tmplgen.numdoc(x) for x in nums]}}]}
+            src = "{var:v}"
+            body = [{"t": "var", "p": {"loop": U("v"), "base": [], "steps": []}, "src": U(src)}, {"t": "text", "s": U(",")}]
+            text = '<loop set="mix" value="v" sort="%s">%s,</loop>' % (word, src)
+            nodes = [{"t": "loop", "hasset": 1, "set": {"loop": [], "base": U("mix"), "steps": []}, "value": U("v"), "group": [], "sort": srt, "body": body}]
+            out.append((doc, nodes, text, "sortkind"))
+    return out
 
 
 def main():
@@ -34,6 +51,7 @@ def main():
     for i in range(n):
         g = tmplgen.Gen(c.seed * 1000003 + i)
         cases.append(g.template(depth=3 if i % 3 else 2))
+    cases += sortkind_cases()
     inp = os.path.join(c.out, "templates.txt")
     write_cases(inp, cases)
     p = os.path.join(c.out, "render.ndjson")
@@ -49,6 +67,9 @@ def main():
             c.violation(sig(e) + " expected=%r" % ("".join(chr(u) if u >= 0 else "?" for u in exp)[:200]), {"kind": "oracle", "template": "".join(chr(u) for u in e["t"]),
                         "value": e["meta"]["doc"], "out": "".join(chr(u) for u in e["out"]), "expected": "".join(chr(u) if u >= 0 else "?" for u in exp),
                         "flags": {k: e[k] for k in ("prefix", "wsame", "vsame")}})
+        partial = len(set(t[1] for t in r.tuples("PARTIAL")))
+        skipped = len(set(t[1] for t in r.tuples("SKIPPED")))
+        c.stage("oracle", events=len(evs), mismatches=len(bad), partially_judged=partial, not_judged_too_many_unjudged_nodes=skipped, fully_judged=len(evs) - partial - skipped)
         nn = max(0, r.distinct - 65)
         c.count(n_eval=nn, validated=nn - len(bad), distinct_keys=[tuple(e["t"]) for e in evs])
         kinds = {}
@@ -68,7 +89,9 @@ def main():
     c.finish(rule="random ASTs (<= 4 nodes per sequence, nesting <= 3) over a random root document with arrays, objects, records for grouping, "
                   "phrases, numeric strings and HTML-special strings/keys; distinct = distinct template texts",
              assumptions=["documentation-silent situations are not generated: scalar loop sets, {var:} of a container other than the bare loop variable, names "
-                          "> 255 units, spaces inside {var: x }, inline-if cases without value, expressions outside the exact domain of QExpr (not judged)",
+                          "> 255 units, spaces inside {var: x }",
+                          "a node the specification does not judge (an expression outside the exact domain of QExpr, an inline-if whose case has no value) stands for any text "
+                          "at its place; everything before, between and after such nodes is demanded (the evidence stage 'oracle' counts the partially judged events)",
                           "reals are multiples of 1/4 so that the two-digit semi-fixed text is exact"],
              exhaustive=False)
 
